@@ -609,6 +609,52 @@ theorem progress (e : Env) (s : St) (h : Inv e s) (hq : quiescent s = false)
     exact ⟨.proc m, rfl, rfl, by simp [enabled, hx]⟩
 
 
+/-- from the invariant alone: with no fetch pending, the delivered indices are exactly `start0 … cursor-1`; and if the
+generator has finished without having been asked to stop, that is all of `[start0, end)` -/
+theorem inv_idle (e : Env) (s : St) (h : Inv e s) (hi : allIdle s.workers = true) :
+    (∀ i, cnt s.delivered i = inR s.start0 s.cursor i) ∧
+    (s.closed = true → s.stopReq = false → ∀ i, cnt s.delivered i = inR s.start0 s.end_ i) := by
+  have key : ∀ i, cnt s.delivered i + inR s.cursor s.end_ i = inR s.start0 s.end_ i := by
+    intro i
+    have hcount := h.count i
+    rw [pend_allIdle s.workers i hi] at hcount
+    omega
+  have hle := h.start_le
+  have hcl := h.cursor_le
+  constructor
+  · intro i
+    have := key i
+    have a1 := ite01 s.cursor s.end_ i
+    have a2 := ite01 s.start0 s.end_ i
+    have a3 := ite01 s.start0 s.cursor i
+    omega
+  · intro hclosed hstop i
+    have := key i
+    have hok := h.closed_ok hclosed
+    have a1 := ite01 s.cursor s.end_ i
+    rcases hok with hok | hok
+    · rw [hstop] at hok; cases hok
+    · omega
+
+theorem pend_pos (ws : List (Option Rng)) (w lo hi i : Nat) (h : ws[w]? = some (some (lo, hi)))
+    (h1 : lo ≤ i) (h2 : i < hi) : 1 ≤ pend ws i := by
+  have hp := pend_set ws w (some (lo, hi)) none i h
+  have a := ite01 lo hi i
+  simp only [one] at hp
+  omega
+
+/-- a worker's pending range lies inside the scan range -/
+theorem worker_in_range (e : Env) (s : St) (h : Inv e s) (w lo hi : Nat) (hw : s.workers[w]? = some (some (lo, hi))) :
+    s.start0 ≤ lo ∧ hi ≤ s.end_ := by
+  have hne := h.nonempty w lo hi hw
+  have c1 := h.count lo
+  have c2 := h.count (hi - 1)
+  have p1 := pend_pos s.workers w lo hi lo hw (by omega) (by omega)
+  have p2 := pend_pos s.workers w lo hi (hi - 1) hw (by omega) (by omega)
+  have a1 := ite01 s.start0 s.end_ lo
+  have a2 := ite01 s.start0 s.end_ (hi - 1)
+  omega
+
 /-! ### fields that never change, and payload counting -/
 
 theorem step_consts (e : Env) (s : St) (op : Op) :
